@@ -11,6 +11,8 @@ import (
 type objSnap struct {
 	ok   bool
 	body string
+	meta string
+	hash string
 }
 
 func readObj(b gofakes3.Backend, bucket, key string) objSnap {
@@ -23,7 +25,7 @@ func readObj(b gofakes3.Backend, bucket, key string) objSnap {
 	if err != nil {
 		return objSnap{}
 	}
-	return objSnap{true, string(data)}
+	return objSnap{true, string(data), o.Metadata["X-Amz-Meta-A"], string(o.Hash)}
 }
 
 func listKeys(b gofakes3.Backend, bucket string) ([]string, bool) {
@@ -74,7 +76,7 @@ func VH_C10() {
 	for bi, n := range buckets {
 		for ki, k := range fixed {
 			body := []byte{byte('A' + 2*bi + ki)}
-			if _, err := b.PutObject(n, k, map[string]string{}, bytes.NewReader(body), 1); err != nil {
+			if _, err := b.PutObject(n, k, map[string]string{"X-Amz-Meta-A": "m-" + n + "-" + k}, bytes.NewReader(body), 1); err != nil {
 				panic(err)
 			}
 		}
@@ -101,7 +103,7 @@ func VH_C10() {
 		// concentrate on path-like keys: bytes from { '.', '/', '\\', 'b', 'x' }
 		for i := 0; i < kl; i++ { // only the free bytes
 			c := k1[i]
-			vsym.Assume(c == '.' || c == '/' || c == '\\' || c == 'b' || c == 'x' || c == 'd' || c == 'y')
+			vsym.Assume(c == '.' || c == '/' || c == '\\' || c == '_' || c == 'b' || c == 'x' || c == 'd' || c == 'y')
 		}
 	}
 
@@ -136,7 +138,7 @@ func VH_C10() {
 	wrote := false
 	switch op {
 	case 0: // put
-		_, err := b.PutObject(b1, k1, map[string]string{}, bytes.NewReader([]byte("N")), 1)
+		_, err := b.PutObject(b1, k1, map[string]string{"X-Amz-Meta-A": "new"}, bytes.NewReader([]byte("N")), 1)
 		accepted = err == nil
 		wrote = accepted
 	case 1: // delete
